@@ -118,8 +118,8 @@ PROPS = {
         "props": "Props/Properties_C15.v",
         "level": "proof",
         "technique": "Coq proof of the query/Display specifications over the range model + exhaustive correspondence over ranges x sorted version sequences with law oracles",
-        "level_text": "10 Coq theorems (any ordered version type): contains_many = map contains on ascending input; bounding_range, as_singleton, from_range_bounds (vs std RangeBounds::contains), is_empty, iter specifications; Display tokens denote exactly the set on the dense completion, are injective on canonical ranges, and the text is their rendering; simplify: the three documented special cases are proved (range_simplify_spec_partial), the general clauses (agrees on listed versions, canonical, no more segments) are NOT yet proved in Coq and are decided by the exhaustive correspondence and the Rust-side law oracle. Tie: every canonical range over 3 bound values x every ascending version sequence (with repetitions) of length <= 3 (thorough 5) over versions at every bound and in every gap, plus longer random ones; Display compared byte for byte and re-read by a reference parser.",
-        "level_note": RANGE_NOTE + " simplify's general specification is explored, not proved (stated in Props/Properties_C15.v as the full statement next to the proved partial one).",
+        "level_text": "11 Coq theorems (any ordered version type): contains_many = map contains on ascending input; bounding_range, as_singleton, from_range_bounds (vs std RangeBounds::contains), is_empty, iter specifications; Display tokens denote exactly the set on the dense completion, are injective on canonical ranges, and the text is their rendering; simplify(versions) is canonical, agrees with the original on every listed version and never has more segments (range_simplify_spec, by induction over the group builder with the version cursor), plus the three documented special cases. Tie: every canonical range over 3 bound values x every ascending version sequence (with repetitions) of length <= 3 (thorough 5) over versions at every bound and in every gap, plus longer random ones; Display compared byte for byte and re-read by a reference parser.",
+        "level_note": RANGE_NOTE + "",
         "domains": ["rangeq"],
         "exhaustive": True,
         "rule": "128 canonical ranges over {10,20,30} x all non-decreasing sequences over the probes {5,10,...,35} of length <= 3 (quick; half of the length-3 ones) / <= 5 (thorough), + seeded random sorted sequences of length 4..9, + from_range_bounds over all 25 bound pairs on {10,20}, + unary queries and Display of all 128 ranges. distinct = distinct case text; non-trivial = every case with a non-empty version list or a unary query.",
